@@ -3,6 +3,7 @@
 package c08
 
 import (
+	"runtime"
 	"fmt"
 	"net"
 	"net/netip"
@@ -17,6 +18,7 @@ import (
 
 	"verif/harness/ev"
 	"verif/harness/farm"
+	"verif/harness/gen"
 	"verif/harness/hook"
 	"verif/harness/rp"
 	"verif/harness/spec"
@@ -24,7 +26,12 @@ import (
 
 func TestMain(m *testing.M) {
 	time.Local = time.UTC
-	ev.Describe("batches of 2..24 goroutines over 1..3 client instances in one process (bind port 0, or one fixed bind port shared by all clients), each goroutine issuing 1..3 calls of mixed operations whose replies ECHO A PER-CALL NONCE (card number, event index, profile id, door/state/delay) to the same or different controllers over broadcast, connected UDP and TCP; the loopback farm answers each request after a delay drawn per call (0..60% of the timeout, counted from the moment the request is seen); optionally a discovery (GetDevices) whose replies keep arriving until the end of its collection window, and an event listener that is started, fed with events and stopped while events are still arriving. Oracle: every call returns without error and carries its own nonce; the Go race detector (binary built with -race) must stay silent - any report whose stacks contain a library frame is a violation. Non-trivial = batch in which >= 2 calls overlapped on the same controller or the same fixed port; distinct = distinct batch.",
+	// other schedules: the shards run with different numbers of processors (all, 2, 4, 3) - fewer processors change which
+	// goroutine runs between two steps of another, and whom a sync.Pool hands a recycled buffer to
+	if p := []int{0, 2, 4, 3}[ev.Shard()%4]; p > 0 && p < runtime.GOMAXPROCS(0) {
+		runtime.GOMAXPROCS(p)
+	}
+	ev.Describe("the shards run with GOMAXPROCS = all / 2 / 4 / 3; batches of 2..24 goroutines over 1..3 client instances in one process (bind port 0, or one fixed bind port shared by all clients), each goroutine issuing 1..3 calls of mixed operations whose replies ECHO A PER-CALL NONCE (card number, event index, profile id, door/state/delay) to the same or different controllers over broadcast, connected UDP and TCP; the loopback farm answers each request after a delay drawn per call (0..60% of the timeout, counted from the moment the request is seen); optionally a discovery (GetDevices) whose replies keep arriving until the end of its collection window, and an event listener that is started, fed with events and stopped while events are still arriving. Oracle: every call returns without error and carries its own nonce; the Go race detector (binary built with -race) must stay silent - any report whose stacks contain a library frame is a violation. Non-trivial = batch in which >= 2 calls overlapped on the same controller or the same fixed port; distinct = distinct batch.",
 		"schedules are sampled under the Go scheduler, not enumerated: the race detector only reports races the executed schedule exposes",
 		"a failed batch (other than a race report) is re-run once with the timeout x4")
 	ev.Main(m, "C08")
@@ -48,6 +55,10 @@ type batch struct {
 	Listen    bool       `json:"listen"`
 	TimeoutMs int        `json:"timeout_ms"`
 	AnyAddr   []bool     `json:"any_addr,omitempty"` // per client: bind to 0.0.0.0 instead of 127.0.0.1 (same port)
+	// PauseUs: the real driver's results reach the library only after this pause (hook.RealPaused): receive and decode are
+	// pulled apart while other calls go on receiving. Debug: the clients print their hex dumps (muted).
+	PauseUs int  `json:"pause_us,omitempty"`
+	Debug   bool `json:"debug,omitempty"`
 }
 
 var ops = []string{"GetCardByID", "GetCardByIndex", "GetEvent", "GetTimeProfile", "GetDoorControlState", "SetDoorControlState", "GetStatus", "OpenDoor", "GetTime", "PutCard", "GetListener"}
@@ -277,7 +288,13 @@ func runBatch(b batch, scale int) *rp.Fail {
 		if i < len(b.AnyAddr) && b.AnyAddr[i] {
 			cc.BindIP = [4]byte{0, 0, 0, 0}
 		}
-		clients[i] = hook.Real(cc)
+		cc.Debug = b.Debug
+		if b.PauseUs > 0 {
+			us := b.PauseUs
+			clients[i] = hook.RealPaused(cc, func(string) { time.Sleep(time.Duration(us) * time.Microsecond) })
+		} else {
+			clients[i] = hook.Real(cc)
+		}
 	}
 	// the farm decides the delay from the request bytes: register them (requests of one batch are distinct by nonce)
 	type failure struct{ fp, msg string }
@@ -488,7 +505,8 @@ func check(b batch) *rp.Fail {
 
 func genBatch(t *rapid.T) batch {
 	b := batch{Clients: rapid.IntRange(1, 3).Draw(t, "clients"), FixedPort: rapid.IntRange(0, 2).Draw(t, "fixed") == 0, TimeoutMs: rapid.SampledFrom([]int{400, 600, 1000}).Draw(t, "timeout"),
-		Discovery: rapid.IntRange(0, 2).Draw(t, "discovery") == 0, Listen: rapid.IntRange(0, 2).Draw(t, "listen") == 0}
+		Discovery: rapid.IntRange(0, 2).Draw(t, "discovery") == 0, Listen: rapid.IntRange(0, 2).Draw(t, "listen") == 0,
+		PauseUs: rapid.SampledFrom([]int{0, 0, 0, 100, 1000, 5000}).Draw(t, "pause"), Debug: gen.Debug(t, "debug")}
 	for i := 0; i < b.Clients; i++ {
 		b.AnyAddr = append(b.AnyAddr, rapid.IntRange(0, 2).Draw(t, "bind.any") == 0)
 	}
